@@ -171,8 +171,10 @@ def correlate_samples(variables, sample_vector):
 
     """
 
-    corr_matrix = np.array(
-        [[dt.get_correlation(row, col) for col in variables] for row in variables])
+    # every variable has unit correlation with itself, also one without uncertainty (for which
+    # get_correlation reports 0, so that the matrix would not be positive definite)
+    corr_matrix = np.array([[1 if row is col else dt.get_correlation(row, col)
+                             for col in variables] for row in variables])
     if np.count_nonzero(corr_matrix - np.diag(np.diagonal(corr_matrix))) == 0:
         return sample_vector  # if no correlations are present
 
